@@ -149,12 +149,17 @@ type MapStore struct {
 	// harness closes it to let the call finish. Waiting counts the callers blocked there.
 	Gate    chan struct{}
 	Waiting int
-	mu      sync.Mutex
-	M       map[string]dtls.Session
-	Sets    int
-	Dels    int
-	Gets    int
+	// FailSetAt k > 0: the k-th Set call (counted over the store's life, see Sets) stores the session and THEN
+	// reports an error (a write-through cache whose backing write failed).
+	FailSetAt int
+	mu        sync.Mutex
+	M         map[string]dtls.Session
+	Sets      int
+	Dels      int
+	Gets      int
 }
+
+var errStoreWrite = errors.New("injected: session store write failed")
 
 func NewMapStore() *MapStore { return &MapStore{M: map[string]dtls.Session{}} }
 
@@ -205,12 +210,16 @@ func (s *MapStore) Set(key []byte, v dtls.Session) error {
 	}
 	defer s.mu.Unlock()
 	s.Sets++
+	var ferr error
+	if s.FailSetAt > 0 && s.Sets == s.FailSetAt {
+		ferr = errStoreWrite
+	}
 	if s.Alias {
 		s.M[string(key)] = v
-		return nil
+		return ferr
 	}
 	s.M[string(key)] = dtls.Session{ID: append([]byte(nil), v.ID...), Secret: append([]byte(nil), v.Secret...)}
-	return nil
+	return ferr
 }
 
 func (s *MapStore) Get(key []byte) (dtls.Session, error) {
